@@ -149,7 +149,10 @@ func (dr *domainRenewal) next(notBefore, notAfter time.Time) time.Duration {
 		threshold = min(dr.m.RenewBefore, 30*24*time.Hour)
 	}
 	maxJitter := min(threshold/10, time.Hour)
-	jitter := pseudoRand.int63n(int64(maxJitter))
+	var jitter int64
+	if maxJitter > 0 {
+		jitter = pseudoRand.int63n(int64(maxJitter))
+	}
 	renewAt := notAfter.Add(-(threshold - time.Duration(jitter)))
 	renewWait := renewAt.Sub(dr.m.now())
 	return max(0, renewWait)
